@@ -19,7 +19,7 @@ func init() {
 		Explain: "Decides by effect analysis over the call graph (all built-in extensions included): (S) no store into configuration/global memory is reachable from Convert/Parse/Render outside the sync.Once initialisers, so no state can survive a call; (R) nothing reachable from Render writes AST node memory except nil-guarded memoisation of a value computed from the node itself; (N) no nondeterminism source (map iteration, time, rand, goroutines, select) is reachable per call; (E) Convert is exactly reader := NewReader(source); Parse; Render with the same source. Does NOT decide byte equality across equivalent option spellings, user-supplied extensions, or a caller-supplied Context/IDs object.",
 		Trusted: []string{"type-directed memory classes (DESIGN 2.3)", "VTA call graph with pass-site refinement (DESIGN 2.2)", "no unsafe writes (C12-X)"},
 		Assumes: []string{"user-supplied extensions, parsers, renderers and Context objects are out of scope"},
-		Rules:   []func(*World, *Report){ruleNoSharedState("C06-S"), ruleStatelessSharedObjects, ruleRenderReadOnly, ruleNoNondeterminism, ruleOptionsCommute, ruleConvertShape, ruleConvertWrappersPassThrough, ruleConfiguredComponentsOwned},
+		Rules:   []func(*World, *Report){ruleNoSharedState("C06-S"), ruleStatelessSharedObjects, ruleRenderReadOnly, ruleNoNondeterminism, ruleOptionsCommute, ruleConvertShape, ruleConvertWrappersPassThrough, ruleConfiguredComponentsOwned, ruleConfigTimeWritesNoGlobals},
 	})
 	register(&Property{
 		ID:      "C07",
